@@ -373,7 +373,9 @@ def decision(spec):
 
 
 def replay(data):
-    return dict(evaluations=0, violations=[])
+    if (data.get('replay') or {}).get('snapshot'):
+        return L.replay_rows(ID, data)          # clusters of the lock-step rows carry their complete pre-state
+    return dict(evaluations=0, violations=[], not_replayable='this cluster is described in full by the file; it has no executable replay')
 
 
 def finish(agg, tier, seed):
